@@ -1,1 +1,132 @@
-//! C08: CPR global decode (filled in with the position contracts).
+//! C08: CPR global decode of an even/odd airborne position pair (ICAO Doc 9684 / DO-260B A.1.7).
+//! NL boundaries are computed from the defining formula
+//!   lat_NL = (180/pi) * acos( sqrt( (1 - cos(pi/30)) / (1 - cos(2*pi/NL)) ) ),  NL = 2..59
+//! (tools/gen: python, rounded to 8 decimals as published), NOT copied from /repo.
+
+/// (NL value, smallest |latitude| at which the zone count drops BELOW this value... ) i.e.
+/// NL(lat) = v for the first row with |lat| < boundary, 1 at and above 87 degrees.
+pub static NL_BOUNDS: [(f64, i32); 58] = [
+    (10.47047130, 59),
+    (14.82817437, 58),
+    (18.18626357, 57),
+    (21.02939493, 56),
+    (23.54504487, 55),
+    (25.82924707, 54),
+    (27.93898710, 53),
+    (29.91135686, 52),
+    (31.77209708, 51),
+    (33.53993436, 50),
+    (35.22899598, 49),
+    (36.85025108, 48),
+    (38.41241892, 47),
+    (39.92256684, 46),
+    (41.38651832, 45),
+    (42.80914012, 44),
+    (44.19454951, 43),
+    (45.54626723, 42),
+    (46.86733252, 41),
+    (48.16039128, 40),
+    (49.42776439, 39),
+    (50.67150166, 38),
+    (51.89342469, 37),
+    (53.09516153, 36),
+    (54.27817472, 35),
+    (55.44378444, 34),
+    (56.59318756, 33),
+    (57.72747354, 32),
+    (58.84763776, 31),
+    (59.95459277, 30),
+    (61.04917774, 29),
+    (62.13216659, 28),
+    (63.20427479, 27),
+    (64.26616523, 26),
+    (65.31845310, 25),
+    (66.36171008, 24),
+    (67.39646774, 23),
+    (68.42322022, 22),
+    (69.44242631, 21),
+    (70.45451075, 20),
+    (71.45986473, 19),
+    (72.45884545, 18),
+    (73.45177442, 17),
+    (74.43893416, 16),
+    (75.42056257, 15),
+    (76.39684391, 14),
+    (77.36789461, 13),
+    (78.33374083, 12),
+    (79.29428225, 11),
+    (80.24923213, 10),
+    (81.19801349, 9),
+    (82.13956981, 8),
+    (83.07199445, 7),
+    (83.99173563, 6),
+    (84.89166191, 5),
+    (85.75541621, 4),
+    (86.53536998, 3),
+    (87.00000000, 2),
+];
+
+/// Number of longitude zones at a latitude: 59 at the equator, minus one for every boundary at or
+/// below |lat| (counting formulation; 1 at and beyond 87 degrees).
+pub fn spec_nl(lat: f64) -> i32 {
+    let a = if lat < 0.0 { -lat } else { lat };
+    let mut n = 59;
+    let mut i = 0;
+    while i < 58 {
+        if a >= NL_BOUNDS[i].0 {
+            n -= 1;
+        }
+        i += 1;
+    }
+    n
+}
+
+pub const TWO17: f64 = 131072.0;
+
+/// Positive modulo on integral floats.
+fn fmod_pos(x: f64, m: f64) -> f64 {
+    let r = super::h::frem(x, m);
+    if r < 0.0 { r + m } else { r }
+}
+
+/// Latitude zone index j = floor((59*lat0 - 60*lat1)/2^17 + 1/2) - exact in integers.
+pub fn spec_j(lat0: u32, lat1: u32) -> i64 {
+    let num = 59 * lat0 as i64 - 60 * lat1 as i64 + 65536;
+    num.div_euclid(131072)
+}
+
+/// Recovered latitudes (even, odd) of the published algorithm: Dlat_i * (mod(j, 60 - i) + lat_i/2^17),
+/// southern hemisphere values (>= 270) brought to [-90, 0).
+pub fn spec_rlat(lat0: u32, lat1: u32) -> (f64, f64) {
+    let j = spec_j(lat0, lat1) as f64;
+    let mut r0 = 6.0 * (fmod_pos(j, 60.0) + lat0 as f64 / TWO17);
+    let mut r1 = (360.0 / 59.0) * (fmod_pos(j, 59.0) + lat1 as f64 / TWO17);
+    if r0 >= 270.0 {
+        r0 -= 360.0;
+    }
+    if r1 >= 270.0 {
+        r1 -= 360.0;
+    }
+    (r0, r1)
+}
+
+/// Longitude zone index m = floor((lon0*(NL-1) - lon1*NL)/2^17 + 1/2) - exact in integers.
+pub fn spec_m(lon0: u32, lon1: u32, nl: i32) -> i64 {
+    let num = lon0 as i64 * (nl as i64 - 1) - lon1 as i64 * nl as i64 + 65536;
+    num.div_euclid(131072)
+}
+
+/// Recovered longitude of the frame with parity `form`, in [-180, 180).
+pub fn spec_rlon(lon0: u32, lon1: u32, nl: i32, form: u32) -> f64 {
+    let ni = if nl - form as i32 > 1 { nl - form as i32 } else { 1 };
+    let m = spec_m(lon0, lon1, nl);
+    let mm = m.rem_euclid(ni as i64);
+    let lon_i = if form == 1 { lon1 } else { lon0 };
+    let lon = (360.0 / ni as f64) * (mm as f64 + lon_i as f64 / TWO17);
+    if lon >= 180.0 { lon - 360.0 } else { lon }
+}
+
+pub fn close(a: f64, b: f64) -> bool {
+    let d = a - b;
+    d < 1e-9 && d > -1e-9
+}
